@@ -292,6 +292,11 @@ impl MarkdownEventsReader {
                 link_type,
                 id: _,
             } => {
+                // (the parser's range of a wiki link stops before its last bracket)
+                let range = match link_type {
+                    pulldown_cmark::LinkType::WikiLink { .. } => range.start..range.end + 1,
+                    _ => range,
+                };
                 self.push_inline(
                     DocumentInline::Link(Link {
                         inlines: vec![],
